@@ -223,3 +223,26 @@ func PNormAbs(v model2d.Coord, p float64) float64 {
 func SumOfCubes(v model2d.Coord) float64 {
 	return math.Pow(v.X, 3) + math.Pow(v.Y, 3)
 }
+
+type mat3 [9]float64
+
+// want:DIAGADD the penalty lands on a column.
+func RidgeBad(m *mat3, lambda float64) {
+	m[0] += lambda
+	m[3] += lambda
+	m[6] += lambda
+}
+
+// clean:DIAGADD
+func RidgeGood(m *mat3, lambda float64) {
+	for i := 0; i < 3; i++ {
+		m[i*4] += lambda
+	}
+}
+
+// want:DIAGADD stride of a column.
+func RidgeLoopBad(m *mat3, lambda float64) {
+	for i := 0; i < 3; i++ {
+		m[i*3] += lambda
+	}
+}
